@@ -5,6 +5,7 @@ capabilities using the full 657-color table from r2rtf.
 """
 
 from collections.abc import Mapping, Sequence
+from contextvars import ContextVar
 from typing import Any
 
 from rtflite.dictionary.color_table import (
@@ -12,6 +13,12 @@ from rtflite.dictionary.color_table import (
     name_to_rgb,
     name_to_rtf,
     name_to_type,
+)
+
+# Colors of the document currently being encoded. Context-local so that
+# concurrent encodes (threads, async tasks) do not see each other's palette.
+_document_colors: ContextVar[Sequence[str] | None] = ContextVar(
+    "rtflite_document_colors", default=None
 )
 
 
@@ -30,9 +37,6 @@ class ColorService:
         self._name_to_type = name_to_type
         self._name_to_rgb = name_to_rgb
         self._name_to_rtf = name_to_rtf
-        self._current_document_colors = (
-            None  # Context for current document being encoded
-        )
 
     def validate_color(self, color: str) -> bool:
         """Validate if a color name exists in the color table.
@@ -275,8 +279,9 @@ class ColorService:
             return 0  # Default/black color
 
         # Use document context if available and no explicit used_colors provided
-        if used_colors is None and self._current_document_colors is not None:
-            used_colors = self._current_document_colors
+        document_colors = _document_colors.get()
+        if used_colors is None and document_colors is not None:
+            used_colors = document_colors
 
         if used_colors is None:
             # Use original r2rtf index if no specific color list (full table)
@@ -406,11 +411,11 @@ class ColorService:
         """
         if document is not None and used_colors is None:
             used_colors = self.collect_document_colors(document)
-        self._current_document_colors = used_colors
+        _document_colors.set(used_colors)
 
     def clear_document_context(self):
         """Clear the document context."""
-        self._current_document_colors = None
+        _document_colors.set(None)
 
     def get_color_info(self, color: str) -> Mapping[str, Any]:
         """Get comprehensive information about a color.
